@@ -134,7 +134,11 @@ def flag_to_seq(flag: str) -> str:
     # a ':' in the name that line can not be read back, neither by us (every
     # later command that has to read the sequences fails) nor by any MH tool.
     #
-    if ":" in flag:
+    # The file is written as ASCII, too: a keyword with an 8-bit character made
+    # the rewrite of `.mh_sequences` fail half way (the file is truncated
+    # first), taking the flags of every message in the folder with it.
+    #
+    if ":" in flag or not flag.isascii():
         raise No(f"'{flag}' can not be used as a keyword on this server")
     return flag
 
